@@ -194,12 +194,13 @@ class Generator {
     }
     o.a[0] = mock_sel; o.a[1] = fn; o.a[2] = a0; o.a[3] = a1;
     if (rng_.chance(1, 8)) o.a[5] = 1;   // made from inside a catch block
+    else if (rng_.chance(1, 10)) o.a[5] = 2;   // made from a destructor during stack unwinding
     if (rng_.below(100) < cfg_.fault_pct) { o.fault = FK_THROW; o.fault_at = rng_.below(4); }
     if (depth < 2 && rng_.below(100) < cfg_.nested_pct) {
       int n = rng_.chance(1, 4) ? 2 : 1;
       for (int i = 0; i < n; ++i) {
         Op in = gen_nested(depth + 1);
-        o.nested.push_back({rng_.chance(1, 5) ? -1 : rng_.below(3), in});
+        o.nested.push_back({rng_.chance(1, 5) ? -1 : rng_.chance(1, 8) ? -2 : rng_.below(3), in});
       }
     }
     return o;
